@@ -90,6 +90,9 @@ LEGACY = (
     ("ValueMapImplLegacyItemsDict.cfg",
      "items() iterates _v2b_dict (entries with a repeated Values string "
      "collapse) - the tree as it is"),
+    ("ValueMapImplLegacyItemsOnce.cfg",
+     "items() hands out a one-shot iterator built when the object is "
+     "created (only the first items() call lists anything)"),
 )
 THOROUGH_ONLY = ("ValueMapImplLegacyIntFallback.cfg",)
 LEGACY_INV = {"ValueMapImplLegacyTruthy.cfg": "ImplEqualsClaimsE",
